@@ -1,1 +1,41 @@
-fn main(){}
+//! Compile-only probe for the first clause of C14: "a downstream crate can define its own cell and face integrals".
+//! This crate uses nothing but the public API of meshless_voronoi with its default features (no `verif` hooks). If the
+//! bound `M: ConvexCellMarker` of the trait methods cannot be named from outside the crate, it does not compile.
+use glam::DVec3;
+use meshless_voronoi::integrals::{CellIntegral, FaceIntegral};
+use meshless_voronoi::{ConvexCell, ConvexCellMarker};
+
+#[derive(Default, Clone)]
+struct Count(usize);
+
+impl CellIntegral for Count {
+    fn init<M: ConvexCellMarker>(_cell: &ConvexCell<M>) -> Self {
+        Count(0)
+    }
+    fn collect(&mut self, _v0: DVec3, _v1: DVec3, _v2: DVec3, _gen: DVec3) {
+        self.0 += 1;
+    }
+    fn finalize(self) -> Self {
+        self
+    }
+}
+
+impl FaceIntegral for Count {
+    fn init<M: ConvexCellMarker>(_cell: &ConvexCell<M>, _clipping_plane_idx: usize) -> Self {
+        Count(0)
+    }
+    fn collect(&mut self, _v0: DVec3, _v1: DVec3, _v2: DVec3, _gen: DVec3) {
+        self.0 += 1;
+    }
+    fn finalize(self) -> Self {
+        self
+    }
+}
+
+fn main() {
+    let pts = [DVec3::new(0.25, 0.5, 0.5), DVec3::new(0.75, 0.5, 0.5)];
+    let vi = meshless_voronoi::VoronoiIntegrator::build(&pts, None, DVec3::ZERO, DVec3::ONE, meshless_voronoi::Dimensionality::ThreeD, false);
+    let c: Vec<Count> = vi.compute_cell_integrals();
+    let f = vi.compute_face_integrals::<Count>();
+    println!("probe ok: {} cell integrals ({} tetrahedra in the first), {} face integrals", c.len(), c[0].0, f.len());
+}
